@@ -282,6 +282,7 @@ class Run:
                 return self.assume(b, pol, vals, learned)
             if eb is not None and eb == conj:
                 return self.assume(a, pol, vals, learned)
+            learned.append((n, pol))      # an undecided disjunction / negated conjunction: a fact about the compound node
             return True
         if k == 'BinaryOperator' and n.get('op') in ('==', '!='):
             l, r = n['ch']
